@@ -154,6 +154,19 @@ def plain(m):
             {n: [(k, b.order, b.stereo is not None) for k, b in nb.items()] for n, nb in m._bonds.items()})
 
 
+def source_state(m):
+    """what must not move when an object derived from m is edited: plain data, canonical string, labels, and the concrete ring list
+    (rings as atom tuples: they must stay cycles of m's own bonds)"""
+    vals = derived(m, ['str', 'labels', 'atoms_order', 'components', 'compiled'])
+    try:
+        rings = [tuple(r) for r in m.sssr]
+        ok = all(all(r[(i + 1) % len(r)] in m._bonds.get(r[i], ()) for i in range(len(r))) for r in rings)
+        vals['rings'] = (sorted(rings), ok)
+    except Exception as e:
+        vals['rings'] = ('EXC', type(e).__name__)
+    return vals
+
+
 def rebuilt(m):
     """independent reconstruction with the same numbers and insertion order"""
     r, mp, left = molgen.rebuild(m, 0, keep_numbers=True, shuffle=False)
@@ -342,13 +355,13 @@ def check_case(case, rec):
                 history.append('remap')
             elif op == 'copy':
                 src = m
-                sources.append((src, plain(src), derived(src, ['str', 'labels']), 'copy'))
+                sources.append((src, plain(src), source_state(src), 'copy'))
                 m = m.copy()
                 history.append('copy')
             elif op == 'substructure':
                 sub = [n for n in nums if rnd.random() < .7] or nums[:1]
                 src = m
-                sources.append((src, plain(src), derived(src, ['str', 'labels']), 'substructure'))
+                sources.append((src, plain(src), source_state(src), 'substructure'))
                 m = m.substructure(sub)
                 history.append(f'substructure:{len(sub)}')
             elif op in ('union', 'ior'):
@@ -356,11 +369,11 @@ def check_case(case, rec):
                 other.kekule()
                 if op == 'union':
                     src = m
-                    sources.append((src, plain(src), derived(src, ['str', 'labels']), 'union'))
-                    sources.append((other, plain(other), derived(other, ['str', 'labels']), 'union-operand'))
+                    sources.append((src, plain(src), source_state(src), 'union'))
+                    sources.append((other, plain(other), source_state(other), 'union-operand'))
                     m = m | other
                 else:
-                    sources.append((other, plain(other), derived(other, ['str', 'labels']), 'ior-operand'))
+                    sources.append((other, plain(other), source_state(other), 'ior-operand'))
                     m |= other
                 history.append(f'{op}:{PIECES[a % len(PIECES)]}')
             elif op == 'clean_stereo':
@@ -400,8 +413,11 @@ def check_case(case, rec):
         if not sparse:
             compare_with_rebuild(m, rec, where)
         for src, snap, vals, how in sources[-3:]:
-            if plain(src) != snap or derived(src, ['str', 'labels']) != vals:
-                rec.fail('independence', f'{where}: the source of a {how} changed when the derived object was edited', sig=how)
+            now = source_state(src)
+            if plain(src) != snap or now != vals or not (now['rings'][1] is True or now['rings'][0] == 'EXC'):
+                what = [k for k in now if now[k] != vals.get(k)] or ['atoms/bonds']
+                rec.fail('independence', f'{where}: the source of a {how} changed when the derived object was edited ({what})',
+                         sig=how)
                 return
     if sparse and len(m):
         compare_with_rebuild(m, rec, f'at the end of {history} on seed {str(molgen.build_kekule(case["seed_mol"]))!r}')
